@@ -2048,6 +2048,20 @@ namespace hs
     void Interp::op_drain(const Op& op)
     {
         auto S = live_obj(op.arg(0));
+        if (S && S->o->caps.kind == K_COLL && S->o->caps.comp)
+        {
+            // a collection: nodes of one size through the composable family until it says no (no growth: the
+            // reservations use up the block, its rest goes to the bucket)
+            int  idx = index_of(*S);
+            auto mx  = S->o->max_node();
+            auto sz  = op.arg(1) % 2 ? 1 + std::size_t(op.arg(0) / 2) % 8 : 1 + std::size_t(op.arg(0) / 2) % mx;
+            Req  r{COMP, false, 1, sz, 1};
+            for (int i = 0; i < 1500; ++i)
+                if (!do_alloc(*S, idx, r, 0, nullptr, false))
+                    break;
+            stats().hit("reach.collection_drained_without_growth");
+            return;
+        }
         if (!S || S->o->caps.kind != K_POOL)
             return;
         int  idx = index_of(*S);
